@@ -25,6 +25,8 @@ type Env struct {
 	visited *MapIterV
 	qn      *int
 	assume  bool // the expression is being assumed (callee contract), not proved
+	inOld   bool      // inside old(...)
+	outer   *HeapView // the view outside the enclosing old(...), for cur(...)
 	allocBound *Term // "allocated(x)": x existed when the contract's function was entered
 }
 
@@ -227,6 +229,10 @@ func (st *State) elab(env *Env, e *Expr) (SVal, types.Type) {
 		st.unsupported("unknown identifier %q in contract", e.Name)
 	case "old":
 		n := *env
+		if !env.inOld {
+			n.outer = env.cur
+		}
+		n.inOld = true
 		n.cur = env.old
 		return st.elab(&n, e.Args[0])
 	case "unary":
